@@ -76,7 +76,7 @@ func (h *harness) headstateFamily() {
 		resume := func(img *memory.Database, where string, rp migPlanReplay) {
 			cur := img
 			for round := 0; round < 3; round++ {
-				o := runMigrator(headstate.Migrator{}, nil, cur, btPlan{}, false, 15*time.Second, true)
+				o := runMigrator(headstate.Migrator{}, nil, cur, btPlan{}, false, 6*time.Second, true)
 				h.res.Case(fmt.Sprintf("hs-resume|%d|%s|%d", n, where, round), o.commits > 0)
 				if o.ret == "hang" || o.ret == "panic" {
 					h.res.Violate(lib.Violation{Sig: "headstate-migrate-" + o.ret, What: o.errText, Replay: rp})
@@ -96,7 +96,7 @@ func (h *harness) headstateFamily() {
 		}
 		for _, inflate := range []bool{true, false} {
 			rp := migPlanReplay{Migration: "headstate", Spec: fs, Plan: btPlan{Inflate: inflate}, What: "crash image after every commit, then rerun"}
-			o := runMigrator(headstate.Migrator{}, nil, d0, btPlan{Inflate: inflate}, true, 15*time.Second, true)
+			o := runMigrator(headstate.Migrator{}, nil, d0, btPlan{Inflate: inflate}, true, 6*time.Second, true)
 			h.res.Case(fmt.Sprintf("hs|%d|%v", n, inflate), o.commits > 0)
 			h.res.HitN("hs-commits", o.commits)
 			if o.ret != "done" {
@@ -119,9 +119,9 @@ func (h *harness) headstateFamily() {
 				}
 				for _, plan := range []btPlan{{Inflate: inflate, CancelAtCmt: k}, {Inflate: inflate, FailAt: k}, {Inflate: inflate, FailAt: k, FailAll: true}} {
 					rp := migPlanReplay{Migration: "headstate", Spec: fs, Plan: plan, What: "run with the plan, then rerun"}
-					dl, sticky := 15*time.Second, true
+					dl, sticky := 6*time.Second, true
 					if plan.FailAt > 0 {
-						dl, sticky = 2500*time.Millisecond, false
+						dl, sticky = 1500*time.Millisecond, false
 						if h.writeFailHangs >= 1 && plan.FailAll {
 							continue
 						}
@@ -139,7 +139,8 @@ func (h *harness) headstateFamily() {
 						continue
 					}
 					if oc.failedWrites > 0 && oc.ret == "done" {
-						h.res.Violate(lib.Violation{Sig: "headstate-swallows-failed-write", What: "a write failed and Migrate returned (nil, nil)", Replay: rp})
+						h.res.Hit("hs-writefail:absorbed") // then nothing may be missing
+						h.hsCheckDone(fs, oc.final, rp)
 						continue
 					}
 					h.hsTransition(hsObs{pre0, hsAbstract(oc.final, fs.Chain.Seed, n), ret}, map[string]any{"replay": rp})
@@ -153,7 +154,7 @@ func (h *harness) headstateFamily() {
 				plan = btPlan{PreCancel: true}
 			}
 			rp := migPlanReplay{Migration: "headstate", Spec: fs, Plan: plan, What: "run with the plan, then rerun"}
-			oc := runMigrator(headstate.Migrator{}, nil, d0, plan, false, 15*time.Second, true)
+			oc := runMigrator(headstate.Migrator{}, nil, d0, plan, false, 6*time.Second, true)
 			h.res.Hit("hs-run:" + hsRetOf(oc))
 			if oc.ret == "hang" || oc.ret == "panic" {
 				continue
@@ -217,7 +218,7 @@ func (h *harness) sdlFamily() {
 				if len(state) == 8 {
 					next = binary.BigEndian.Uint64(state)
 				}
-				o := runMigrator(&statedifflength.Migrator{}, state, cur, btPlan{}, false, 15*time.Second, true)
+				o := runMigrator(&statedifflength.Migrator{}, state, cur, btPlan{}, false, 6*time.Second, true)
 				h.res.Case(fmt.Sprintf("sdl-resume|%d/%d|%s|%d|%d", c.blocks, c.pruned, where, next, round), o.commits > 0)
 				if o.ret == "hang" || o.ret == "panic" {
 					h.res.Violate(lib.Violation{Sig: "statedifflength-migrate-" + o.ret, What: o.errText, Replay: rp})
@@ -241,7 +242,7 @@ func (h *harness) sdlFamily() {
 		}
 		for _, inflate := range []bool{true, false} {
 			rp := migPlanReplay{Migration: "statedifflength", Spec: fs, Pruned: c.pruned, Plan: btPlan{Inflate: inflate}, What: "crash image after every commit, then rerun"}
-			o := runMigrator(&statedifflength.Migrator{}, nil, d0, btPlan{Inflate: inflate}, true, 15*time.Second, true)
+			o := runMigrator(&statedifflength.Migrator{}, nil, d0, btPlan{Inflate: inflate}, true, 6*time.Second, true)
 			h.res.Case(fmt.Sprintf("sdl|%d/%d|%v", c.blocks, c.pruned, inflate), o.commits > 0)
 			h.res.HitN("sdl-commits", o.commits)
 			h.sdlTransition(sdlObs{0, pre0, sdlAbstract(o.final, height), sdlRetOf(o), false}, map[string]any{"replay": rp})
@@ -262,9 +263,9 @@ func (h *harness) sdlFamily() {
 			for k := 1; k <= o.commits; k++ {
 				for _, plan := range []btPlan{{Inflate: inflate, CancelAtCmt: k}, {Inflate: inflate, FailAt: k}, {Inflate: inflate, FailAt: k, FailAll: true}} {
 					rp := migPlanReplay{Migration: "statedifflength", Spec: fs, Pruned: c.pruned, Plan: plan, What: "run with the plan, then rerun with the returned checkpoint"}
-					dl, sticky := 15*time.Second, true
+					dl, sticky := 6*time.Second, true
 					if plan.FailAt > 0 {
-						dl, sticky = 2500*time.Millisecond, false
+						dl, sticky = 1500*time.Millisecond, false
 						if h.writeFailHangs >= 1 && plan.FailAll {
 							continue
 						}
@@ -280,8 +281,9 @@ func (h *harness) sdlFamily() {
 						h.res.Violate(lib.Violation{Sig: "statedifflength-migrate-" + oc.ret, What: oc.errText, Replay: rp})
 						continue
 					}
-					if oc.failedWrites > 0 && oc.ret != "failed" {
-						h.res.Violate(lib.Violation{Sig: "statedifflength-swallows-failed-write", What: "a write failed and Migrate returned " + oc.ret, Replay: rp})
+					if oc.failedWrites > 0 && oc.ret == "done" {
+						h.res.Hit("sdl-writefail:absorbed") // then nothing may be missing
+						done(oc.final, rp)
 						continue
 					}
 					h.sdlTransition(sdlObs{0, pre0, sdlAbstract(oc.final, height), sdlRetOf(oc), oc.failedWrites > 0}, map[string]any{"replay": rp})
@@ -298,14 +300,14 @@ func (h *harness) sdlFamily() {
 			st := make([]byte, 8)
 			binary.BigEndian.PutUint64(st, next)
 			rp := migPlanReplay{Migration: "statedifflength", Spec: fs, Pruned: c.pruned, What: fmt.Sprintf("Before(checkpoint %d), Migrate", next)}
-			o := runMigrator(&statedifflength.Migrator{}, st, d0, btPlan{}, false, 15*time.Second, true)
+			o := runMigrator(&statedifflength.Migrator{}, st, d0, btPlan{}, false, 6*time.Second, true)
 			h.res.Hit("sdl-stale-checkpoint:" + o.ret)
 			if o.ret == "hang" || o.ret == "panic" {
 				continue
 			}
 			h.sdlTransition(sdlObs{next, pre0, sdlAbstract(o.final, height), sdlRetOf(o), false}, map[string]any{"replay": rp})
 		}
-		if o := runMigrator(&statedifflength.Migrator{}, []byte{1, 2, 3}, d0, btPlan{}, false, 15*time.Second, true); o.ret != "failed" {
+		if o := runMigrator(&statedifflength.Migrator{}, []byte{1, 2, 3}, d0, btPlan{}, false, 6*time.Second, true); o.ret != "failed" {
 			h.res.Violate(lib.Violation{Sig: "statedifflength-accepts-malformed-checkpoint", What: "Before([3 bytes]) did not fail: " + o.ret,
 				Replay: migPlanReplay{Migration: "statedifflength", Spec: fs, What: "Before([]byte{1,2,3})"}})
 		} else {
